@@ -183,7 +183,7 @@ func (w *rewriter) stmt(s GStmt) GStmt {
 		n.Body = w.stmts(x.Body)
 		switch w.kind {
 		case "loop-step":
-			if w.hit() {
+			if x.Cmp != "!=" && w.hit() {
 				if n.Step > 0 {
 					n.Step++
 				} else {
